@@ -3,6 +3,18 @@
 #![allow(unused_imports, dead_code, unused_variables, unused_mut, unused_assignments, unexpected_cfgs)]
 use vstd::prelude::*;
 use std::cmp::min;
+use std::borrow::Cow;
+
+// ---- stand-in for the foreign crate encoding_rs (outside verus!: never verified, never given a body; only so that the verbatim
+// text of XlsEncoding::{high_byte, decode_to} type-checks). Everything about it is assumed (A-enc), see `decode` below.
+pub struct Encoding { _opaque: u8 }
+impl PartialEq for Encoding { fn eq(&self, _o: &Encoding) -> bool { unimplemented!() } }
+static UTF_8_INIT: Encoding = Encoding { _opaque: 0 };
+pub static UTF_8: &'static Encoding = &UTF_8_INIT;
+impl Encoding {
+    pub fn decode<'a>(&'static self, _bytes: &'a [u8]) -> (Cow<'a, str>, &'static Encoding, bool) { unimplemented!() }
+    pub fn is_single_byte(&'static self) -> bool { unimplemented!() }
+}
 
 verus! {
 
@@ -11,7 +23,10 @@ pub mod cfb { pub struct CfbError; }
 pub mod vba { pub struct VbaError; }
 #[verifier::external_type_specification] #[verifier::external_body] pub struct ExIoError(std::io::Error);
 
+#[verifier::external_type_specification] #[verifier::external_body] pub struct ExEncoding(Encoding);
+
 //@@ item src/xls.rs enum XlsError cfg_off=picture
+//@@ item src/cfb.rs struct XlsEncoding
 //@@ item src/xls.rs struct Record
 
 //@@ include common/bytes.rs
@@ -28,6 +43,10 @@ pub mod stdax {
 pub assume_specification<T: Ord>[ std::cmp::min::<T> ](a: T, b: T) -> (r: T)
     ensures r == stdax::min_spec(a, b);
 broadcast use stdax::axiom_min_usize;
+
+// TRUSTED: documented behaviour of String::with_capacity (an empty string; the capacity is only a reservation)
+pub assume_specification[ String::with_capacity ](n: usize) -> (r: String)
+    ensures r@ == Seq::<char>::empty();
 
 // =====================================================================================================
 // Ghost model of a record with its CONTINUE records ([MS-XLS] 2.4.58)
@@ -122,6 +141,140 @@ proof fn lemma_flat_len(f: Seq<Seq<u8>>)
     if f.len() > 0 { lemma_flat_len(f.drop_first()); }
 }
 
+
+// =====================================================================================================
+// A-enc: the character decoder (encoding_rs, outside the verifier)
+// =====================================================================================================
+// TRUSTED: A-enc. `decode(e, bytes)` is the text `encoding_rs::Encoding::decode(bytes).0` of the workbook's code page `e`.
+pub uninterp spec fn decode(e: XlsEncoding, bytes: Seq<u8>) -> Seq<char>;
+// TRUSTED: A-enc. true when the code page is neither UTF-8 nor single-byte (then strings without flag byte are treated as compressed 16-bit)
+pub uninterp spec fn enc_default_wide(e: XlsEncoding) -> bool;
+
+/// storage form actually used: an explicit fHighByte flag wins; without flag (BIFF5-) the code page decides
+pub open spec fn eff_hb(e: XlsEncoding, hb: Option<bool>) -> Option<bool> {
+    match hb { Some(b) => Some(b), None => if enc_default_wide(e) { Some(false) } else { None } }
+}
+/// [MS-XLS] 2.5.293 fHighByte == 0: "all the characters in the string have a high byte of 0x00 and only the low bytes are in rgb":
+/// the 16-bit little-endian form of compressed character data
+pub open spec fn zext(b: Seq<u8>) -> Seq<u8> { Seq::new(2 * b.len(), |i: int| if i % 2 == 0 { b[i / 2] } else { 0u8 }) }
+pub open spec fn imin(a: int, b: int) -> int { if a <= b { a } else { b } }
+/// number of characters that `n` bytes of storage hold, capped by the `len` characters wanted
+pub open spec fn dt_l(eff: Option<bool>, n: int, len: int) -> int { if eff == Some(true) { imin(n / 2, len) } else { imin(n, len) } }
+/// number of bytes these characters occupy
+pub open spec fn dt_ub(eff: Option<bool>, n: int, len: int) -> int { if eff == Some(true) { 2 * dt_l(eff, n, len) } else { dt_l(eff, n, len) } }
+/// the bytes given to the decoder
+pub open spec fn dt_bytes(eff: Option<bool>, stream: Seq<u8>, len: int) -> Seq<u8> {
+    let ub = dt_ub(eff, stream.len() as int, len);
+    if eff == Some(false) { zext(stream.subrange(0, ub)) } else { stream.subrange(0, ub) }
+}
+
+//@@ impl src/cfb.rs XlsEncoding
+// TRUSTED: A-enc (compares the code page with encoding_rs statics); discharged on the real function by Kani harness high_byte_spec for
+// four representative code pages
+//@@ fn src/cfb.rs XlsEncoding::high_byte props=C12,C19 ret=r external_body by=high_byte_spec
+//@@ sig
+    ensures
+        //# C12.high_byte
+        r == eff_hb(*self, high_byte),
+//@@ end
+// TRUSTED: A-enc. The arithmetic half of this contract -- (l, ub) and the byte string handed to the decoder -- is discharged on the real
+// function by the Kani harnesses decode_to_{wide,compressed,default_raw,default_wide} (kani/xlsenc.rs, decoder call stubbed by a recorder);
+// that the decoder's output is `decode(e, those bytes)` is the definition of `decode`.
+//@@ fn src/cfb.rs XlsEncoding::decode_to props=C12,C19 ret=r external_body by=decode_to_wide,decode_to_compressed,decode_to_default_raw,decode_to_default_wide
+//@@ sig
+    ensures
+        //# C12.decode_to_payload
+        r.0 == dt_l(eff_hb(*self, high_byte), stream@.len() as int, len as int),
+        r.1 == dt_ub(eff_hb(*self, high_byte), stream@.len() as int, len as int),
+        final(s)@ == old(s)@ + decode(*self, dt_bytes(eff_hb(*self, high_byte), stream@, len as int)),
+//@@ end
+//@@ endimpl
+
+// =====================================================================================================
+// Character data of a string across CONTINUE records ([MS-XLS] 2.5.293 rgb, 2.4.58 Continue, 2.4.265 SST)
+// =====================================================================================================
+/// one run of character data inside one fragment, with the storage form announced for it
+pub struct Seg { pub wide: bool, pub bytes: Seq<u8> }
+/// 16-bit little-endian form of a run
+pub open spec fn seg_wide_bytes(g: Seg) -> Seq<u8> { if g.wide { g.bytes } else { zext(g.bytes) } }
+/// number of characters (UTF-16 code units) of a run
+pub open spec fn seg_units(g: Seg) -> int { if g.wide { g.bytes.len() as int / 2 } else { g.bytes.len() as int } }
+pub open spec fn segs_units(ss: Seq<Seg>) -> int decreases ss.len() { if ss.len() == 0 { 0 } else { seg_units(ss[0]) + segs_units(ss.drop_first()) } }
+/// text of a sequence of runs: each run is decoded on its own and the pieces are concatenated
+pub open spec fn segs_text(e: XlsEncoding, ss: Seq<Seg>) -> Seq<char>
+    decreases ss.len()
+{
+    if ss.len() == 0 { Seq::<char>::empty() } else { decode(e, seg_wide_bytes(ss[0])) + segs_text(e, ss.drop_first()) }
+}
+
+/// Layout of the character data (`cch` characters still to read, current storage form `hb`) at cursor `f`:
+/// as many whole characters as the current fragment holds (at most cch) form one run; if characters remain, the data continues in the
+/// next fragment, whose first byte is a fresh flag byte (bit 0 = fHighByte) for the remaining characters ([MS-XLS] 2.4.58 / 2.5.293).
+/// None: the fragments end before cch characters were found, or a continuation fragment has no flag byte.
+/// (A dangling odd byte in front of a fragment boundary in 16-bit storage -- never produced by a writer, since a character never
+/// straddles records -- is ignored.)
+pub open spec fn dbcs_segs(f: Seq<Seq<u8>>, cch: nat, hb: bool) -> Option<(Seq<Seg>, Seq<Seq<u8>>)>
+    decreases f.len(), cch
+{
+    if cch == 0 { Some((Seq::<Seg>::empty(), f)) }
+    else if f.len() == 0 { None }
+    else {
+        let w: int = if hb { 2 } else { 1 };
+        let l = imin(f[0].len() as int / w, cch as int);
+        let seg = Seg { wide: hb, bytes: f[0].subrange(0, l * w) };
+        if l == cch { Some((seq![seg], adv(f, l * w))) }
+        else if f.len() == 1 { None }
+        else if f[1].len() == 0 { None }
+        else {
+            match dbcs_segs(adv(next_frag(f), 1), (cch - l) as nat, f[1][0] & 1 != 0) {
+                Some((ss, g)) => Some((seq![seg] + ss, g)),
+                None => None,
+            }
+        }
+    }
+}
+/// the decoded text and the cursor after the character data
+pub open spec fn dbcs_spec(e: XlsEncoding, f: Seq<Seq<u8>>, cch: nat, hb: bool) -> Option<(Seq<char>, Seq<Seq<u8>>)> {
+    match dbcs_segs(f, cch, hb) { Some((ss, g)) => Some((segs_text(e, ss), g)), None => None }
+}
+
+//@@ props C12,C19
+proof fn lemma_segs_text_cons(e: XlsEncoding, g: Seg, ss: Seq<Seg>)
+    ensures
+        segs_text(e, seq![g] + ss) == decode(e, seg_wide_bytes(g)) + segs_text(e, ss),
+        segs_text(e, seq![g]) == decode(e, seg_wide_bytes(g)),
+        segs_text(e, Seq::<Seg>::empty()) == Seq::<char>::empty(),
+{
+    assert((seq![g] + ss).drop_first() =~= ss);
+    assert(seq![g].drop_first() =~= Seq::<Seg>::empty());
+    assert(segs_text(e, Seq::<Seg>::empty()) =~= Seq::<char>::empty());
+    assert(seq![g][0] == g);
+    assert(segs_text(e, seq![g]) =~= decode(e, seg_wide_bytes(g)) + Seq::<char>::empty());
+    assert(decode(e, seg_wide_bytes(g)) + Seq::<char>::empty() =~= decode(e, seg_wide_bytes(g)));
+}
+/// the runs together hold exactly cch characters, and the cursor is the old one advanced (fragments are only ever consumed from the front)
+proof fn lemma_dbcs_units(f: Seq<Seq<u8>>, cch: nat, hb: bool)
+    ensures dbcs_segs(f, cch, hb) is Some ==> segs_units(dbcs_segs(f, cch, hb)->Some_0.0) == cch && (f.len() >= 1 ==> dbcs_segs(f, cch, hb)->Some_0.1.len() >= 1),
+    decreases f.len(), cch
+{
+    if cch > 0 && f.len() > 0 {
+        let w: int = if hb { 2 } else { 1 };
+        let l = imin(f[0].len() as int / w, cch as int);
+        let seg = Seg { wide: hb, bytes: f[0].subrange(0, l * w) };
+        assert(seg_units(seg) == l);
+        if l == cch {
+            assert(seq![seg].drop_first() =~= Seq::<Seg>::empty());
+            assert(segs_units(seq![seg].drop_first()) == 0);
+        } else if f.len() > 1 && f[1].len() > 0 {
+            lemma_dbcs_units(adv(next_frag(f), 1), (cch - l) as nat, f[1][0] & 1 != 0);
+            match dbcs_segs(adv(next_frag(f), 1), (cch - l) as nat, f[1][0] & 1 != 0) {
+                Some((ss, g)) => { assert((seq![seg] + ss).drop_first() =~= ss); }
+                None => {}
+            }
+        }
+    }
+}
+
 /// frame of every cursor operation: the record type is never touched, and a record read without continuation list stays so
 spec fn same_record(a: Record, b: Record) -> bool { a.typ == b.typ && (a.cont is None <==> b.cont is None) }
 
@@ -186,6 +339,170 @@ spec fn same_record(a: Record, b: Record) -> bool { a.typ == b.typ && (a.cont is
             }
 //@@ end
 //@@ endimpl
+
+#[verifier::loop_isolation(false)] // initial values of the `mut len`, `mut high_byte` parameters must stay known inside the loop
+//@@ fn src/xls.rs read_dbcs props=C12,C19 entry ret=res
+//@@ sig
+    ensures
+        //# C12.dbcs_concat
+        res is Ok ==> dbcs_spec(*encoding, frags(*old(r)), len as nat, high_byte) is Some
+            && res->Ok_0@ == dbcs_spec(*encoding, frags(*old(r)), len as nat, high_byte)->Some_0.0,
+        //# C12.dbcs_cursor
+        res is Ok ==> dbcs_spec(*encoding, frags(*old(r)), len as nat, high_byte) is Some
+            && frags(*final(r)) == dbcs_spec(*encoding, frags(*old(r)), len as nat, high_byte)->Some_0.1,
+        //# C12.dbcs_err_iff_eos
+        res is Err <==> dbcs_segs(frags(*old(r)), len as nat, high_byte) is None,
+        //# C12.dbcs_err_kind
+        res is Err ==> res matches Err(XlsError::EoStream(_)),
+        //# C12.dbcs_frame
+        same_record(*old(r), *final(r)),
+//@@ body
+    let ghost r0 = *r;
+    let ghost f0 = frags(*r);
+    let ghost n0 = len as nat;
+    let ghost hb0 = high_byte;
+    let ghost e = *encoding;
+//@@ loop 0
+        invariant
+            same_record(r0, *r),
+            dbcs_segs(frags(*r), len as nat, high_byte) is Some ==> dbcs_segs(f0, n0, hb0) is Some
+                && dbcs_spec(e, f0, n0, hb0)->Some_0.0 == s@ + dbcs_spec(e, frags(*r), len as nat, high_byte)->Some_0.0
+                && dbcs_spec(e, f0, n0, hb0)->Some_0.1 == dbcs_spec(e, frags(*r), len as nat, high_byte)->Some_0.1,
+            dbcs_segs(frags(*r), len as nat, high_byte) is None ==> dbcs_segs(f0, n0, hb0) is None,
+        decreases cont_seq(r.cont).len(), len
+//@@ before /let \(l, at\) = /
+        let ghost f1 = frags(*r);
+        let ghost len1 = len as nat;
+        let ghost hb1 = high_byte;
+        let ghost s1 = s@;
+//@@ before /r\.data = &r\.data\[at/
+        let ghost w: int = if hb1 { 2 } else { 1 };
+        let ghost seg = Seg { wide: hb1, bytes: f1[0].subrange(0, l * w) };
+        proof {
+            assert(l == imin(f1[0].len() as int / w, len1 as int));
+            assert(at == l * w);
+            assert(seg_wide_bytes(seg) == dt_bytes(Some(hb1), f1[0], len1 as int));
+            assert(s@ == s1 + decode(e, seg_wide_bytes(seg)));
+            lemma_segs_text_cons(e, seg, Seq::<Seg>::empty());
+        }
+//@@ before /if len > 0 \{/
+        proof {
+            assert(frags(*r) =~= adv(f1, at as int));
+            assert(next_frag(frags(*r)) =~= next_frag(f1));
+            if len == 0 {
+                assert(dbcs_segs(f1, len1, hb1) == Some((seq![seg], adv(f1, l * w))));
+                assert(segs_text(e, Seq::<Seg>::empty()) =~= Seq::<char>::empty());
+                assert(s@ + Seq::<char>::empty() =~= s@);
+            }
+        }
+//@@ before /high_byte = r\.data\[0\]/
+                proof { assert(r.data@ == f1[1]); }
+//@@ after /r\.data = &r\.data\[1\.\.\];/
+                proof {
+                    let f2 = frags(*r);
+                    assert(f2 =~= adv(next_frag(f1), 1));
+                    assert(high_byte == (f1[1][0] & 1 != 0));
+                    match dbcs_segs(f2, len as nat, high_byte) {
+                        Some((ss, g)) => {
+                            assert(dbcs_segs(f1, len1, hb1) == Some((seq![seg] + ss, g)));
+                            lemma_segs_text_cons(e, seg, ss);
+                            assert(s1 + (decode(e, seg_wide_bytes(seg)) + segs_text(e, ss)) =~= s@ + segs_text(e, ss));
+                        }
+                        None => { assert(dbcs_segs(f1, len1, hb1) is None); }
+                    }
+                }
+//@@ before /return Err\(XlsError::EoStream/
+                proof { assert(f1.len() == 1); assert(dbcs_segs(f1, len1, hb1) is None); }
+//@@ end
+
+// =====================================================================================================
+// XLUnicodeRichExtendedString ([MS-XLS] 2.5.293) and the shared string table ([MS-XLS] 2.4.265 SST)
+// =====================================================================================================
+/// header of an XLUnicodeRichExtendedString: cch (2 bytes), flags (1 byte: bit0 fHighByte, bit2 fExtSt, bit3 fRichSt),
+/// cRun (2 bytes, only if fRichSt), cbExtRst (4 bytes signed, only if fExtSt)
+pub struct StrHdr { pub cch: nat, pub hb: bool, pub crun: nat, pub cbext: int, pub hlen: int }
+pub open spec fn i32_of(v: int) -> int { if v >= 2147483648 { v - 4294967296 } else { v } }
+pub open spec fn str_hdr(d: Seq<u8>) -> Option<StrHdr> {
+    if d.len() < 3 { None }
+    else {
+        let flags = d[2];
+        let rich = flags & 0x8 != 0;
+        let ext = flags & 0x4 != 0;
+        let o_ext: int = if rich { 5 } else { 3 };
+        let hlen: int = if ext { o_ext + 4 } else { o_ext };
+        if d.len() < hlen { None }
+        else {
+            Some(StrHdr {
+                cch: le16(d) as nat,
+                hb: flags & 0x1 != 0,
+                crun: if rich { le16(d.subrange(3, d.len() as int)) as nat } else { 0 },
+                cbext: if ext { i32_of(le32(d.subrange(o_ext, d.len() as int))) } else { 0 },
+                hlen: hlen,
+            })
+        }
+    }
+}
+/// One string of the table at cursor `f`: text and cursor after the string.
+/// "a string header never straddles a record boundary": when the current fragment is exhausted the header opens the next fragment;
+/// then the character data (dbcs_spec: a flag byte after every boundary), then 4*cRun bytes of formatting runs and cbExtRst bytes of
+/// phonetic data, both crossing boundaries without flag byte (skip_spec).  None = malformed / truncated.
+pub open spec fn sst_item(e: XlsEncoding, f: Seq<Seq<u8>>) -> Option<(Seq<char>, Seq<Seq<u8>>)> {
+    if f.len() == 0 { None }
+    else {
+        let f1 = if f[0].len() == 0 && f.len() > 1 { next_frag(f) } else { f };
+        match str_hdr(f1[0]) {
+            None => None,
+            Some(h) =>
+                if h.cbext < 0 { None }
+                else {
+                    match dbcs_spec(e, adv(f1, h.hlen), h.cch, h.hb) {
+                        None => None,
+                        Some((t, g)) => match skip_spec(g, 4 * h.crun) {
+                            None => None,
+                            Some(g2) => match skip_spec(g2, h.cbext as nat) {
+                                None => None,
+                                Some(g3) => Some((t, g3)),
+                            }
+                        }
+                    }
+                }
+        }
+    }
+}
+/// all fragments of one workbook stream lie in one allocation, so together they hold fewer than 2^63 bytes (Rust allocation limit)
+pub open spec fn mem_bounded(f: Seq<Seq<u8>>) -> bool { total(f) <= 0x7fff_ffff_ffff_ffff }
+
+//@@ fn src/xls.rs read_rich_extended_string props=C12,C19 entry ret=res
+//@@ sig
+    ensures
+        //# C12.sst_item
+        res is Ok ==> sst_item(*encoding, frags(*old(r))) is Some && res->Ok_0@ == sst_item(*encoding, frags(*old(r)))->Some_0.0,
+        //# C12.sst_item_cursor
+        res is Ok ==> sst_item(*encoding, frags(*old(r))) is Some && frags(*final(r)) == sst_item(*encoding, frags(*old(r)))->Some_0.1,
+        //# C12.sst_item_err_iff_malformed
+        mem_bounded(frags(*old(r))) ==> (res is Err <==> sst_item(*encoding, frags(*old(r))) is None),
+        //# C12.sst_item_frame
+        same_record(*old(r), *final(r)),
+//@@ body
+    let ghost f0 = frags(*r);
+    let ghost e = *encoding;
+//@@ before /let cch = /
+    let ghost f1 = frags(*r);
+    let ghost d = r.data@;
+    proof {
+        assert(f1 == if f0[0].len() == 0 && f0.len() > 1 { next_frag(f0) } else { f0 });
+        assert(d == f1[0]);
+    }
+//@@ before /let s = read_dbcs/
+    let ghost h = str_hdr(d)->Some_0;
+    proof {
+        assert(str_hdr(d) is Some);
+        assert(frags(*r) =~= adv(f1, h.hlen));
+        assert(cch == h.cch && high_byte == h.hb && c_run == h.crun);
+        assert(h.cbext >= 0 ==> cb_ext_rst == h.cbext);
+        lemma_total_unfold(f0); lemma_total_unfold(f1);
+    }
+//@@ end
 
 } // verus!
 fn main() {}
